@@ -42,7 +42,7 @@ def check_back_conversion(c, rng):
 
 def run(ctx):
     ok_proofs = ctx.check_props(extra=["theories/Corr/Corr_C06.v"])
-    per, depth, max_insts = (18, 3, 14) if ctx.quick else (120, 5, 16)
+    per, depth, max_insts = (14, 3, 12) if ctx.quick else (45, 4, 14)
     cases, gstats = cc.build_cases(ctx, per, max_insts)
     live = [c for c in cases if c.live]
     reports = cc.coq_reports(ctx, live, lambda c: cc.sound_term(c, depth), label="sound", shard=8 if ctx.quick else 12,
